@@ -576,7 +576,7 @@ structure AtomFacts (n : Node) : Prop where
   z : atomicNumberOf (n.attrs.sym.getD []) = .ok (zOf n)
   parse : parseAtomAttributesV3000 (cs "M" :: cs "V30" :: atomToks n) = .ok (some (atomRec n))
 
-theorem atomFacts (n : Node) (hw : WritableAtom n) (hid : (natRepr (n.id + 1)).length ≤ intMaxStrDigits) :
+theorem atomFacts (n : Node) (hw : WritableAtom n) (_hid : (natRepr (n.id + 1)).length ≤ intMaxStrDigits) :
     AtomFacts n := by
   obtain ⟨s, hs, hel⟩ := hw.sym
   have hline := atomLine_eq n s hs hw.chg hw.rad (fun m hm => (hw.mass m hm).1)
